@@ -56,6 +56,8 @@ type refCase struct {
 	// malformedOnly: the message is malformed but the proof inside it is genuine; whether it must be
 	// refused is C15's question (inconsistent length fields), here only crashes and hangs count
 	malformedOnly bool
+	// replayCV: CertificateVerify is taken verbatim from an EARLIER honest session of the genuine client
+	replayCV bool
 }
 
 func ske(sig func(p *gmref.Peer) []byte) func(p *gmref.Peer) []byte {
@@ -539,7 +541,7 @@ func tlsClientCases() []refCase {
 	sign := func(p *gmref.Peer, transcript []byte) []byte {
 		save := p.Transcript
 		p.Transcript = transcript
-		b := gmref.TLS12RSA.SignCV(p)
+		b := p.Prof.SignCV(p)
 		p.Transcript = save
 		return b
 	}
@@ -558,6 +560,7 @@ func tlsClientCases() []refCase {
 			return sign(p, full[:last])
 		})},
 		{name: "CertificateVerify over another transcript", mutate: cvWith(func(p *gmref.Peer) []byte { return sign(p, []byte("another session")) })},
+		{name: "CertificateVerify replayed from an earlier session of the genuine client (the attacker holds no key)", replayCV: true},
 		{name: "CertificateVerify with the hash algorithm byte changed to SHA-1", mutate: cvWith(func(p *gmref.Peer) []byte {
 			b := gmref.TLS12RSA.SignCV(p)
 			b[0] = 2
@@ -587,30 +590,60 @@ func tlsClientCases() []refCase {
 	return append(cs, finishedCases(true)...)
 }
 
-func tlsRefClientUnit(suite uint16) harness.Unit {
-	return harness.Unit{Name: fmt.Sprintf("tls12-scripted-malicious-client/%04x", suite), Run: func(c *harness.Ctx) {
+func tlsRefClientUnit(suite, ver uint16) harness.Unit {
+	return harness.Unit{Name: fmt.Sprintf("tls%04x-scripted-malicious-client/%04x", ver, suite), Run: func(c *harness.Ctx) {
 		p := tlsk.Get()
 		for i, rc := range tlsClientCases() {
+			if ver != 0x0303 && len(rc.name) > 21 && rc.name[:21] == "CertificateVerify wit" {
+				continue // the algorithm bytes and this framing exist in TLS 1.2 only
+			}
 			for _, pol := range policies {
 				if pol == gmtls.NoClientCert {
 					continue
 				}
+				mkServer := func() *gmtls.Config {
+					return &gmtls.Config{Certificates: []gmtls.Certificate{p.RSA}, Time: tlsk.FixedTime, Rand: wire.NewRand(35), CipherSuites: []uint16{suite}, MinVersion: ver, MaxVersion: ver, ClientAuth: pol, ClientCAs: p.StdRootsG}
+				}
+				setup := func(q *gmref.Peer) { q.UseTLSVersion(ver); q.Suites = []uint16{suite} }
 				id := gmref.Identity{Certs: [][]byte{p.StdClient.Certificate[0]}, TLSKey: p.StdClient.PrivateKey}
 				if rc.ident != nil {
 					rc.ident(&id)
 				}
-				sc := &gmtls.Config{Certificates: []gmtls.Certificate{p.RSA}, Time: tlsk.FixedTime, Rand: wire.NewRand(35), CipherSuites: []uint16{suite}, MinVersion: 0x0303, MaxVersion: 0x0303, ClientAuth: pol, ClientCAs: p.StdRootsG}
-				script := &gmref.Script{SendClientCert: true, Data: tlsk.PingPong(true), Mutate: rc.mutate}
-				o := tlsk.RunLibVsRef(sc, false, tlsk.LibApp(false), id, byte(100+i), func(q *gmref.Peer) { q.UseTLS(); q.Suites = []uint16{suite} }, script, nil)
+				mutate := rc.mutate
+				if rc.replayCV {
+					// session 1: the genuine client; its CertificateVerify message is recorded
+					var recorded []byte
+					rec := func(fl int, items []gmref.Item) []gmref.Item {
+						out := append([]gmref.Item{}, items...)
+						for k := range out {
+							if out[k].Name == "CertificateVerify" {
+								orig := out[k]
+								out[k].Build = func(q *gmref.Peer) []byte { recorded = orig.Build(q); return recorded }
+							}
+						}
+						return out
+					}
+					o1 := tlsk.RunLibVsRef(mkServer(), false, tlsk.LibApp(false), id, byte(100+i), setup, &gmref.Script{SendClientCert: true, Data: tlsk.PingPong(true), Mutate: rec}, nil)
+					if !o1.Lib.Complete || recorded == nil {
+						c.Note("replay case: the recording session did not complete (version %04x policy %d)", ver, pol)
+						c.Add("harness_divergences", 1)
+						continue
+					}
+					// session 2: another connection (other randoms), the attacker replays the message and has no key
+					id.TLSKey = nil
+					mutate = replace("CertificateVerify", func(q *gmref.Peer) []byte { return recorded })
+				}
+				script := &gmref.Script{SendClientCert: true, Data: tlsk.PingPong(true), Mutate: mutate}
+				o := tlsk.RunLibVsRef(mkServer(), false, tlsk.LibApp(false), id, byte(140+i), setup, script, nil)
 				may := (rc.accept != nil && rc.accept[pol]) || rc.malformedOnly
-				judgeRefCase(c, fmt.Sprintf("TLS 1.2 suite=%04x ClientAuth=%d scripted client: %s", suite, pol, rc.name), fmt.Sprintf("tls12-scripted-client:%s:ClientAuth=%d", rc.name, pol), o, rc.conformant, may)
+				judgeRefCase(c, fmt.Sprintf("TLS %04x suite=%04x ClientAuth=%d scripted client: %s", ver, suite, pol, rc.name), fmt.Sprintf("tls-scripted-client:%04x:%s:ClientAuth=%d", ver, rc.name, pol), o, rc.conformant, may)
 			}
 		}
 	}}
 }
 
-func tlsRefServerUnit(suite uint16) harness.Unit {
-	return harness.Unit{Name: fmt.Sprintf("tls12-scripted-malicious-server/%04x", suite), Run: func(c *harness.Ctx) {
+func tlsRefServerUnit(suite, ver uint16) harness.Unit {
+	return harness.Unit{Name: fmt.Sprintf("tls%04x-scripted-malicious-server/%04x", ver, suite), Run: func(c *harness.Ctx) {
 		p := tlsk.Get()
 		cases := append([]refCase{
 			{name: "control: genuine RSA identity", conformant: true},
@@ -624,10 +657,81 @@ func tlsRefServerUnit(suite uint16) harness.Unit {
 			if rc.ident != nil {
 				rc.ident(&id)
 			}
-			cc := &gmtls.Config{RootCAs: p.StdRootsG, ServerName: tlsk.ServerName, Time: tlsk.FixedTime, Rand: wire.NewRand(36), CipherSuites: []uint16{suite}, MinVersion: 0x0303, MaxVersion: 0x0303}
+			cc := &gmtls.Config{RootCAs: p.StdRootsG, ServerName: tlsk.ServerName, Time: tlsk.FixedTime, Rand: wire.NewRand(36), CipherSuites: []uint16{suite}, MinVersion: ver, MaxVersion: ver}
 			script := &gmref.Script{Data: tlsk.PingPong(false), Mutate: rc.mutate}
-			o := tlsk.RunLibVsRef(cc, true, tlsk.LibApp(true), id, byte(120+i), func(q *gmref.Peer) { q.UseTLS(); q.Suites = []uint16{suite} }, script, nil)
-			judgeRefCase(c, fmt.Sprintf("TLS 1.2 suite=%04x scripted server: %s", suite, rc.name), "tls12-scripted-server:"+rc.name, o, rc.conformant, false)
+			o := tlsk.RunLibVsRef(cc, true, tlsk.LibApp(true), id, byte(120+i), func(q *gmref.Peer) { q.UseTLSVersion(ver); q.Suites = []uint16{suite} }, script, nil)
+			judgeRefCase(c, fmt.Sprintf("TLS %04x suite=%04x scripted server: %s", ver, suite, rc.name), fmt.Sprintf("tls-scripted-server:%04x:%s", ver, rc.name), o, rc.conformant, false)
+		}
+	}}
+}
+
+// tlsTicketIdentityUnit: a session ticket must never stand in for certificate verification that the
+// CURRENT connection's policy demands. Connection 1 obtains a ticket legitimately; connection 2
+// presents it under circumstances in which the server declines or re-checks it:
+//
+//	(a) the ticket was issued at another TLS version, so the server falls back to a full handshake
+//	    in which the client now presents an untrusted certificate (with a valid proof);
+//	(b) the ticket was issued to an untrusted certificate under a non-verifying policy and the
+//	    server's policy has since become RequireAndVerifyClientCert / VerifyClientCertIfGiven.
+//
+// In both the verifying server must not complete.
+func tlsTicketIdentityUnit() harness.Unit {
+	return harness.Unit{Name: "tls-ticket-then-untrusted-identity", Run: func(c *harness.Ctx) {
+		p := tlsk.Get()
+		genuine := gmref.Identity{Certs: [][]byte{p.StdClient.Certificate[0]}, TLSKey: p.StdClient.PrivateKey}
+		rogue := gmref.Identity{Certs: [][]byte{p.StdClientUntrusted.Certificate[0]}, TLSKey: p.StdClientUntrusted.PrivateKey}
+		for _, v1 := range []uint16{0x0301, 0x0302, 0x0303} {
+			for _, v2 := range []uint16{0x0301, 0x0302, 0x0303} {
+				for _, pol1 := range []gmtls.ClientAuthType{gmtls.RequireAnyClientCert, gmtls.RequireAndVerifyClientCert} {
+					for _, pol2 := range []gmtls.ClientAuthType{gmtls.VerifyClientCertIfGiven, gmtls.RequireAndVerifyClientCert} {
+						sc := &gmtls.Config{Certificates: []gmtls.Certificate{p.RSA}, Time: tlsk.FixedTime, Rand: wire.NewRand(37), CipherSuites: []uint16{gmref.SuiteAESCBC}, MinVersion: 0x0301, MaxVersion: 0x0303, ClientAuth: pol1, ClientCAs: p.StdRootsG}
+						sc.SetSessionTicketKeys([][32]byte{{3, 1, 4}})
+						id1 := genuine
+						if pol1 == gmtls.RequireAnyClientCert {
+							id1 = rogue // accepted without verification under this policy
+						}
+						var first *gmref.Peer
+						o1 := tlsk.RunLibVsRef(sc, false, tlsk.LibApp(false), id1, 150, func(q *gmref.Peer) {
+							q.UseTLSVersion(v1)
+							q.Suites = []uint16{gmref.SuiteAESCBC}
+							q.OfferTicket = true
+							first = q
+						}, &gmref.Script{SendClientCert: true, Data: tlsk.PingPong(true)}, nil)
+						if !o1.Lib.Complete || first == nil || first.NewTicket == nil {
+							c.Note("ticket-issuing connection failed (v1=%04x pol1=%d): %s", v1, pol1, o1.Describe())
+							c.Add("harness_divergences", 1)
+							continue
+						}
+						ticket, master := first.NewTicket, first.Master
+						sc.ClientAuth = pol2
+						setup := func(q *gmref.Peer) {
+							q.UseTLSVersion(v2)
+							q.Suites = []uint16{gmref.SuiteAESCBC}
+							q.OfferTicket = true
+							q.Ticket, q.ResumeMaster, q.ResumeSuite = ticket, master, gmref.SuiteAESCBC
+						}
+						o := tlsk.RunLibVsRef(sc, false, tlsk.LibApp(false), rogue, 151, setup, &gmref.Script{SendClientCert: true, Data: tlsk.PingPong(true)}, nil)
+						tag := fmt.Sprintf("ticket issued at TLS %04x under ClientAuth=%d to a %s certificate; next connection at TLS %04x under ClientAuth=%d presents the ticket and an untrusted certificate with a valid proof", v1, pol1, map[bool]string{true: "genuine", false: "untrusted"}[pol1 == gmtls.RequireAndVerifyClientCert], v2, pol2)
+						c.Add("evaluations", 1)
+						c.DistinctS("nontrivial", tag)
+						if c.WantSample() {
+							c.Sample(tag)
+						}
+						// legitimate completion: the ticket belongs to a GENUINE session and is resumed (same version)
+						legit := pol1 == gmtls.RequireAndVerifyClientCert && o.Lib.DidResume && v1 == v2
+						if o.Lib.Panic != nil {
+							c.Violate("panic:tls-ticket-identity:"+site(o.Lib.Stack), fmt.Sprintf("[%s] %v\n%s", tag, o.Lib.Panic, clip(o.Lib.Stack, 1200)), nil, tag)
+							continue
+						}
+						if o.Lib.Complete && !legit {
+							c.Violate("accepts:tls-ticket-then-untrusted-identity", fmt.Sprintf("[%s] the verifying server completes (resumed=%v) and reports %d peer certificates: %s", tag, o.Lib.DidResume, len(o.Lib.PeerCerts), o.Describe()), nil, tag)
+						}
+						if o.Lib.Complete && legit && len(o.Lib.PeerCerts) > 0 && string(o.Lib.PeerCerts[0]) != string(p.StdClient.Certificate[0]) {
+							c.Violate("tls-ticket-identity:resumed-with-other-identity", fmt.Sprintf("[%s] resumed session reports another peer certificate", tag), nil, tag)
+						}
+					}
+				}
+			}
 		}
 	}}
 }
